@@ -20,7 +20,7 @@ from .. import monitors
 from ..oracles import geom
 from . import common
 from .c08 import snap
-from .c09 import field_desc, locate_opts, make_field
+from .c09 import field_desc, locate_opts, make_field, one_pixel_type
 
 ID = "C14"
 RULE = (
@@ -89,7 +89,7 @@ def gen(rng, kind, tier):
         if opts["refine"] and rng.random() < 0.5:
             opts["refine"] = False  # keep most histories cheap
         source = str(rng.choice(["none", "none", "index", "callable", "callable-on-field"]))
-        case = {"grid": spec, "fields": [field_desc(rng, spec) for _ in range(n)], "times": _times(rng, n),
+        case = {"grid": spec, "fields": one_pixel_type([field_desc(rng, spec) for _ in range(n)]), "times": _times(rng, n),
                 "opts": opts, "source": source, "prefilled": bool(rng.random() < 0.2)}
         if rng.random() < 0.08:
             case["offline_processes"] = 2
@@ -110,7 +110,7 @@ def gen(rng, kind, tier):
             spec = geom.rand_cyl_spec(rng, nmin=3, nmax=8)
         n = int(rng.integers(1, 9))
         method = str(rng.choice(["structure_factor_mean", "structure_factor_maximum", "droplet_detection", "bogus"]))
-        return {"grid": spec, "fields": [field_desc(rng, spec) for _ in range(n)], "times": _times(rng, n),
+        return {"grid": spec, "fields": one_pixel_type([field_desc(rng, spec) for _ in range(n)]), "times": _times(rng, n),
                 "method": method, "source": str(rng.choice(["none", "index", "callable", "callable-on-field"]))}
     if kind == "long":
         return {"frames": int(rng.choice([8400, 8400, 9100, 16500])), "cells": int(rng.integers(5, 9)),
